@@ -28,6 +28,7 @@ mod c05;
 mod c06;
 mod c07;
 mod c08;
+mod c09;
 mod c10;
 mod c12;
 mod c13;
@@ -80,6 +81,7 @@ fn prop_fn(name: &str) -> Option<fn(&mut rep::Ctx)> {
         "c06" => c06::run,
         "c07" => c07::run,
         "c08" => c08::run,
+        "c09" => c09::run,
         "c10" => c10::run,
         "c12" => c12::run,
         "c13" => c13::run,
